@@ -9,6 +9,7 @@ import (
 	"context"
 	"reflect"
 	"runtime"
+	"sort"
 	"sync"
 	"sync/atomic"
 	"time"
@@ -192,7 +193,7 @@ type Stats struct {
 	Steps, Switches, ClockJumps, VoluntaryClock, ForeignFired int
 	MapDecisions, MapNonSorted                                int
 	SelectMulti, MutexContended, ChanSendBlocked              int
-	Settled, TimersFired, BusyAdvance                         int
+	Settled, TimersFired, BusyAdvance, SortYields             int
 }
 
 type Sim struct {
@@ -284,3 +285,11 @@ func ContextAfterFunc(ctx context.Context, f func()) (stop func() bool) {
 func OnceFunc(f func()) func()                                 { return sync.OnceFunc(f) }
 func OnceValue[T any](f func() T) func() T                     { return sync.OnceValue(f) }
 func OnceValues[T1, T2 any](f func() (T1, T2)) func() (T1, T2) { return sync.OnceValues(f) }
+
+func SortSort(data sort.Interface)                            { sort.Sort(data) }
+func SortStable(data sort.Interface)                          { sort.Stable(data) }
+func SortStrings(x []string)                                  { sort.Strings(x) }
+func SortInts(x []int)                                        { sort.Ints(x) }
+func SortFloat64s(x []float64)                                { sort.Float64s(x) }
+func SortSlice(x interface{}, less func(i, j int) bool)       { sort.Slice(x, less) }
+func SortSliceStable(x interface{}, less func(i, j int) bool) { sort.SliceStable(x, less) }
